@@ -210,7 +210,7 @@ class TranslatorSMT2(Translator):
                 elif expr.op == "%":
                     res = bvsmod(res, arg)
                 elif expr.op == "smod":
-                    res = bvsmod(res, arg)
+                    res = bvsrem(res, arg)
                 elif expr.op == "umod":
                     res = bvurem(res, arg)
                 elif expr.op == "&":
